@@ -597,9 +597,12 @@ func (t *Tokenizer) TokenizeContext(ctx context.Context, input []byte) ([]models
 			}
 		}()
 
-		for t.pos.Index < len(t.input) {
-			// Check context every 100 tokens for cancellation
-			if len(tokens)%100 == 0 {
+		for iter := 0; t.pos.Index < len(t.input); iter++ {
+			// Check context every 100 tokens or comments for cancellation. Counting
+			// iterations rather than tokens keeps a run of comments, which adds no
+			// token, cancellable - and looks once per hundred, not once per comment,
+			// while the token count happens to be a multiple of 100.
+			if iter%100 == 0 {
 				if err := ctx.Err(); err != nil {
 					tokenErr = err
 					return
